@@ -2,6 +2,7 @@
 package main
 
 import (
+	"encoding/json"
 	"fmt"
 	"os"
 	"sync"
@@ -17,10 +18,16 @@ func main() {
 		return
 	}
 	if run.Replay != "" {
+		var raw json.RawMessage
+		core.LoadArtefact(run.Replay, &raw)
+		if replaySequential(run, raw) {
+			run.Finish()
+		}
 		replay(run)
 	}
 	if !run.Fork(16, "GOMAXPROCS=1") {
 		explore(run)
+		runSequentialHelpers(run)
 		run.Finish()
 	}
 	run.RacePass("--tier", string(run.Tier))
